@@ -3,6 +3,9 @@ use crate::push::PushSubscriptionsRegistry;
 use crate::subscriptions::paging::SubscriptionsPage;
 use crate::subscriptions::*;
 use crate::topics::{AttachSubscriptionError, Topic};
+#[cfg(deltio_verif)]
+use crate::verif::RwLock;
+#[cfg(not(deltio_verif))]
 use parking_lot::RwLock;
 use std::collections::hash_map::Entry;
 use std::collections::HashMap;
